@@ -491,6 +491,11 @@ type c10PartyResult struct {
 	err     error
 	step    string
 	filled  uint64 // Pool.NumTriples once the generator stopped producing
+	// online IOStats of this party after Connect [0] and after Run [1]
+	// (single-Run networks): write segments (Flushed) and bytes (Sent)
+	flushed [2]uint64
+	sent    [2]uint64
+	wlog    *c10WriteLog // leader, plan.logLeader: every Write of every accepted connection
 }
 
 type c10Plan struct {
@@ -510,6 +515,9 @@ type c10Plan struct {
 	// doors: less-travelled ways into the same functionality, chosen at random
 	// per network (see notes/C10-findings.md, table Doors)
 	doors uint64
+	// logLeader: the leader is built with gmw.NewNetwork on a listener of the
+	// harness whose connections record the size of every Write (c10skel.go)
+	logLeader bool
 }
 
 const (
@@ -596,10 +604,14 @@ func c10RunNetwork(p *c10Plan) (res []c10PartyResult, stalled bool, retry bool) 
 		r.step = "create/join"
 		if id == 0 {
 			<-earlyDone
-			if p.doors&c10DoorNewNetwork != 0 {
+			if p.doors&c10DoorNewNetwork != 0 || p.logLeader {
 				var l net.Listener
 				l, err = net.Listen("tcp", addrs[0])
 				if err == nil {
+					if p.logLeader {
+						r.wlog = &c10WriteLog{}
+						l = &c10LogListener{Listener: l, log: r.wlog}
+					}
 					nw = gmw.NewNetwork(p.n, l, &gmw.Peer{})
 				}
 			} else {
@@ -707,11 +719,15 @@ func c10RunNetwork(p *c10Plan) (res []c10PartyResult, stalled bool, retry bool) 
 		} else {
 			r.step = "run"
 			before := new(big.Int).Set(p.inputs[id])
+			on0, _ := nw.Stats()
+			r.flushed[0], r.sent[0] = on0.Flushed.Load(), on0.Sent.Load()
 			r.out, err = nw.Run(p.inputs[id], p.circ, verbose)
 			if err != nil {
 				r.err = err
 				return
 			}
+			on1, _ := nw.Stats()
+			r.flushed[1], r.sent[1] = on1.Flushed.Load(), on1.Sent.Load()
 			if before.Cmp(p.inputs[id]) != 0 {
 				r.step = "api:Run-changes-its-input"
 				r.err = fmt.Errorf("the input big.Int was %s before Run and is %s after", before.Text(16), p.inputs[id].Text(16))
@@ -1233,7 +1249,8 @@ func runC10(c *Ctx) error {
 				}
 			}
 			if ok {
-				// fine
+				// outputs fine: one write segment per peer and exchange (c10skel.go)
+				c10FlushOracle(c, n, circ, res, replay)
 			} else if len(gotStr) == n {
 				rp := replay
 				rp.Got = gotStr
@@ -1442,6 +1459,9 @@ func runC10(c *Ctx) error {
 		return err
 	}
 	c10Overlap(c, timeout)
+	if err := c10Skel(c, timeout); err != nil {
+		return err
+	}
 	return c10Wide(c, timeout)
 }
 
@@ -1722,6 +1742,8 @@ func c10Wide(c *Ctx, timeout time.Duration) error {
 				break
 			}
 		}
+		// write segments of a level message larger than p2p.writeBufSize (model: mode 7)
+		c10WideSegs(c, circ, res)
 	}
 	// model case, mode 2: pool words when the generator parked (leader), Get completes
 	filledWords := int(res[0].filled / 64)
